@@ -414,6 +414,7 @@ struct CanonOpts {
     as_separator: bool,
 }
 
+const LAYOUT_ARRAY_ATTRS: [&str; 5] = ["stretch", "rowstretch", "columnstretch", "rowminimumheight", "columnminimumwidth"];
 const ITEM_OWN_ATTRS: [&str; 5] = ["alignment", "row", "column", "rowspan", "colspan"];
 
 /// canonical rendering of a .ui tree: generated names replaced by "_"; the faulted object's own values (properties,
@@ -424,12 +425,16 @@ fn canon(e: &xml::Element, ids: &BTreeSet<String>, at: &str, opts: CanonOpts, it
     let faulted = is_obj && !at.is_empty() && name == at;
     out.push('<');
     out.push_str(&e.name);
+    let holds_at_here = e.name == "layout" && !at.is_empty() && e.children_named("item").any(|it| it.elems().any(|c| c.attr("name") == Some(at)));
     for (k, v) in &e.attrs {
         if e.name == "item" && item_mode == 1 && ITEM_OWN_ATTRS.contains(&k.as_str()) {
             continue; // values of the faulted object's own attached bindings
         }
         if e.name == "item" && item_mode == 2 && (k == "row" || k == "column") {
             continue;
+        }
+        if e.name == "layout" && holds_at_here && LAYOUT_ARRAY_ATTRS.contains(&k.as_str()) {
+            continue; // per-row / per-column values contributed by the attached bindings of the children (incl. the faulted one)
         }
         let mut v = if (is_obj || e.name == "addaction") && k == "name" && !ids.contains(v) && v != "separator" { "_" } else { v.as_str() };
         if opts.as_separator && e.name == "addaction" && k == "name" && v == at {
